@@ -222,8 +222,12 @@ def run_check(prop_id, tier, harnesses, level_explanation, trusted_base=(), extr
     if problems:
         for pr in problems: print(f'INCONCLUSIVE property={prop_id} {pr}')
         return EXIT_INCONCLUSIVE
-    print(f'[{prop_id}] PASS tier={tier}: holds for all values within the stated bounds '
-          f'({st["paths"]} paths, {st["queries"]} solver queries, {wall:.0f}s)')
+    if known_lines:
+        print(f'[{prop_id}] PASS tier={tier}: no violation other than the {len(set(known_lines))} recorded known finding(s) within the stated bounds '
+              f'({st["paths"]} paths, {st["queries"]} solver queries, {wall:.0f}s)')
+    else:
+        print(f'[{prop_id}] PASS tier={tier}: holds for all values within the stated bounds '
+              f'({st["paths"]} paths, {st["queries"]} solver queries, {wall:.0f}s)')
     return EXIT_OK
 
 
